@@ -25,6 +25,8 @@ pub struct Scn {
     pub args: String,
     pub clocks: Vec<(ClockModel, u64)>,
     pub step_cap: u64,
+    #[serde(default)]
+    pub print_msgs: bool,
 }
 
 #[derive(Clone, Debug, PartialEq)]
@@ -268,7 +270,7 @@ struct RunSummary {
 
 fn real_run(scn: &Scn, g: &Option<Guest>, reft: &std::rc::Rc<RefTrace>, clock: &(ClockModel, u64), stats: &mut Stats) -> Result<RunSummary, Failure> {
     let gg = g.clone().unwrap_or_else(empty_guest);
-    let cfg = SysCfg { wait_start: false, clock: clock.0.clone(), clock_seed: clock.1, step_cap: scn.step_cap + 8 };
+    let cfg = SysCfg { wait_start: false, clock: clock.0.clone(), clock_seed: clock.1, step_cap: scn.step_cap + 8, print_msgs: scn.print_msgs };
     let obs = LoopObserver {
         reft: reft.clone(),
         idx: 0,
@@ -440,7 +442,46 @@ impl Property for C13 {
         let every = if tier == Tier::Quick { 400 } else { 2000 };
         if index % every < EXAMPLES.len() as u64 {
             let (p, a) = EXAMPLES[(index % every) as usize];
-            return Scn { guest: None, elf: Some(p.to_string()), args: a.to_string(), clocks, step_cap: 30_000_000 };
+            return Scn { guest: None, elf: Some(p.to_string()), args: a.to_string(), clocks, step_cap: 30_000_000, print_msgs: false };
+        }
+        // "exact landing": a guest whose cumulative state count equals 6,000,000 exactly at an instruction boundary
+        // (every charge is a multiple of 3 and mostly of 6, so 2M and 4M cannot be hit exactly, 6M can). The padding is
+        // found by measuring candidate guests with the reference loop - generation may look at timing, oracles do not.
+        if index % every == EXAMPLES.len() as u64 + 1 || (tier == Tier::Thorough && index % 500 == 77) {
+            let lead = rng.range(0, 6);
+            for pad in 0..6u64 {
+                let mut blocks = Vec::new();
+                for i in 0..lead {
+                    blocks.push(Block::Arith((i * 37 + pad) as u8));
+                }
+                for _ in 0..pad {
+                    blocks.push(Block::Raw(vec![0xf0, 0x00])); // MOV.B #0,R0H: 2 states
+                }
+                for _ in 0..6 {
+                    blocks.push(Block::Delay(60_000));
+                }
+                let guest = GuestSpec { blocks, handlers: vec![], code_dram: false, stack_dram: false, data_dram: false, vec_top: 0, sub_delay: 1, init_ccr: None, stack_off: 0 };
+                let scn = Scn { guest: Some(guest), elf: None, args: String::new(), clocks: clocks.clone(), step_cap: 1_000_000, print_msgs: false };
+                if let Ok(g) = scn.guest.as_ref().unwrap().assemble() {
+                    if let Ok(t) = reference_run(&scn, &Some(g), 3) {
+                        let mut sum = 0u64;
+                        let mut hit = false;
+                        for (_, c) in &t.rows {
+                            sum += *c as u64;
+                            if sum == 3 * SYNC_INTERVAL {
+                                hit = true;
+                                break;
+                            }
+                            if sum > 3 * SYNC_INTERVAL {
+                                break;
+                            }
+                        }
+                        if hit {
+                            return scn;
+                        }
+                    }
+                }
+            }
         }
         let mut blocks = Vec::new();
         let mut handlers = Vec::new();
@@ -522,7 +563,8 @@ impl Property for C13 {
             stack_off: if rng.chance(1, 2) { 0 } else { 4 * rng.below(64) as u16 },
         };
         let est = super::c10::estimate_iters(&guest);
-        Scn { guest: Some(guest), elf: None, args: String::new(), clocks, step_cap: est * 4 + 50_000 }
+        let print_msgs = rng.chance(1, 8);
+        Scn { guest: Some(guest), elf: None, args: String::new(), clocks, step_cap: est * 4 + 50_000, print_msgs }
     }
 
     fn execute(scn: &Scn, stats: &mut Stats) -> Verdict {
@@ -604,6 +646,15 @@ impl Property for C13 {
         }
         if scn.elf.is_some() {
             bump(stats, "probe.example_elf_through_real_loader");
+        }
+        {
+            let mut sum = 0u64;
+            for (_, c) in &reft.rows {
+                sum += *c as u64;
+                if sum > 0 && sum % SYNC_INTERVAL == 0 {
+                    bump(stats, "probe.threshold_hit_exactly");
+                }
+            }
         }
         let near = f0.fin.state_sum % SYNC_INTERVAL;
         if f0.fin.state_sum > SYNC_INTERVAL / 2 && (near < 4000 || near > SYNC_INTERVAL - 4000) {
